@@ -310,3 +310,50 @@ def check_zero_is_a_value(ctx, rule, what, in_scope, floor=3):
                       % (k, norm(t)[:60], f.short, what))
     ctx.check(True, rule, 'zero-is-a-value:examined', 'truth contexts in scope', '%d truth contexts examined, none tests a number' % examined)
     ctx.floor(rule, examined, floor, 'truth contexts examined for numeric truthiness')
+
+
+def eval_count(text, name, k):
+    """truth value of a condition over the list `name` when it holds k elements; None when the condition is about anything else"""
+    import operator
+    ops = {ast.Eq: operator.eq, ast.NotEq: operator.ne, ast.Lt: operator.lt, ast.LtE: operator.le, ast.Gt: operator.gt, ast.GtE: operator.ge}
+    try:
+        e = ast.parse(text, mode='eval').body
+    except SyntaxError:
+        return None
+
+    def ev(x):
+        if isinstance(x, ast.Constant) and isinstance(x.value, (int, bool)):
+            return x.value
+        if isinstance(x, ast.Call) and norm(x) == 'len(%s)' % name:
+            return k
+        if isinstance(x, (ast.Name, ast.Attribute, ast.Subscript)) and norm(x) == name:
+            return k > 0
+        if isinstance(x, ast.UnaryOp) and isinstance(x.op, ast.Not):
+            return not ev(x.operand)
+        if isinstance(x, ast.Compare) and len(x.ops) == 1 and type(x.ops[0]) in ops:
+            return ops[type(x.ops[0])](ev(x.left), ev(x.comparators[0]))
+        if isinstance(x, ast.BoolOp):
+            vs = [ev(v) for v in x.values]
+            return all(vs) if isinstance(x.op, ast.And) else any(vs)
+        raise ValueError(norm(x))
+    try:
+        return bool(ev(e))
+    except ValueError:
+        return None
+
+
+def nonempty_atom(text, name):
+    """If the condition `text` is a test of whether the collection `name` is non-empty (in any spelling: truthiness, len() compared
+    with 0 or 1), return its polarity: True when the condition holds exactly for non-empty collections, False when exactly for
+    empty ones; None otherwise."""
+    v0, v1, v2 = (eval_count(text, name, k) for k in (0, 1, 2))
+    if v0 is None or v1 is None or v0 == v1 or v1 != v2:
+        return None
+    return v1
+
+
+def dtext(sym):
+    """Canonical text of a (displayed) string expression: locals holding fresh displays expanded, every string-building form
+    (join of a display, format, f-string, %) rewritten as a `+` chain."""
+    from ..sim import deep_norm
+    return deep_norm(sym, concat=True)
